@@ -82,22 +82,26 @@ def run(ctx):
         "scheme with the same observable admissions is accepted",
         "ReserveNewQuery is called while holding the recorder mutex (it is non-blocking), so no event can separate its "
         "linearization point from its log line",
-        "a closed connection answers 'closed'; limits up to 64 are exercised on the real connection, the model "
-        "checks limits 1 and 2 exhaustively",
+        "ReserveNewQuery reads the closed flag before it takes the lock: 'closed' is accepted only once the connection is "
+        "closed, 'ok'/'full' are judged by the count alone (also shortly after a close); limits up to 64 are exercised on "
+        "the real connection, the model checks limits 1 and 2 exhaustively",
     ]
     # ---- leg A
-    cfgs = [("PipeConn_design_c09.cfg", "design, 3 callers x 1 call, limits 1 and 2", {}),
-            ("PipeConn_design2.cfg", "design, 2 callers x 1 call, stream, all budgets", {})]
+    cfgs = [("PipeConn_design_c09.cfg", "design, 3 callers x 1 call, limits 1 and 2", {})]
     if T:
-        cfgs += [("PipeConn_design_c09b.cfg", "design, 2 callers x 2 calls, limits 1 and 2", {"timeout": 1200}),
+        cfgs += [("PipeConn_design2.cfg", "design, 2 callers x 1 call, stream, all budgets", {}),
+                 ("PipeConn_design_c09b.cfg", "design, 2 callers x 2 calls, limits 1 and 2", {"timeout": 1200}),
                  ("PipeConn_design2u.cfg", "design, 2 callers, datagram", {}),
                  ("PipeConn_design3.cfg", "design, 3 callers x 1 call, dup/cancel/fault", {"timeout": 1500})]
-    pc.leg_a(ctx, cfgs, [("PipeConn_dev_d5.cfg", "ExactAccounting"), ("PipeConn_dev_d5b.cfg", "NoSpuriousRefusal"),
-                         ("PipeConn_dev_off1.cfg", "Limit"), ("PipeConn_dev_dblrel.cfg", "NoUnderflow"),
-                         ("PipeConn_dev_leak.cfg", "QuiescentFree"), ("PipeConn_dev_nodel.cfg", "QuiescentFree")])
+    # leg A runs concurrently with the generators / the Go driver (joined before leg C) to keep the quick tier short
+    from concurrent.futures import ThreadPoolExecutor
+    ex = ThreadPoolExecutor(max_workers=2)
+    leg_a = ex.submit(pc.leg_a, ctx, cfgs, [("PipeConn_dev_d5.cfg", "ExactAccounting"), ("PipeConn_dev_d5b.cfg", "NoSpuriousRefusal"),
+                                            ("PipeConn_dev_off1.cfg", "Limit"), ("PipeConn_dev_dblrel.cfg", "NoUnderflow"),
+                                            ("PipeConn_dev_leak.cfg", "QuiescentFree"), ("PipeConn_dev_nodel.cfg", "QuiescentFree")])
 
     # ---- leg B
-    nsim = 1000 if T else 250
+    nsim = 1000 if T else 160
     b1 = vlib.tlc_behaviours(ctx, "PipeConn", "PipeConn_gen.cfg", simulate=nsim, depth=250,
                              cfg_text=pc.gen_cfg(Callers="{0, 1, 2}", MaxCqs="{1, 2}", MaxCalls="2", MaxStray="0", MaxDup="0"),
                              label="generator: 3 callers x 2 calls, limits 1-2, withdraw / cancel / fault anywhere")
@@ -121,7 +125,7 @@ def run(ctx):
         L = (2, 2, 3, 4)[k % 4]
         scripts.append(wrap_fill_script(L, rng, dgram=False, name="wrapfill%d.%d" % (L, k)))  # stream only: a UDP query outstanding > 1 s resends
         meta.append({"beh": None, "refusal": True})
-    nrand = 500 if T else 60
+    nrand = 500 if T else 40
     for i in range(nrand):
         L = rng.choice([1, 1, 2, 2, 3])
         scripts.append(pc.random_script("rnd%d" % i, callers=rng.choice([2, 3, 4]), calls=rng.choice([2, 3, 4]), maxcq=L,
@@ -135,6 +139,7 @@ def run(ctx):
     log("replaying %d scripts (%d TLC behaviours, fill scripts for limits 1/2/4/64, %d random runs)" % (
         len(scripts), len(behs), nrand))
     recs = pc.run_scripts(ctx, scripts, workers=8)
+    leg_a.result()   # design-level failures (Infra) surface here
 
     # ---- leg C
     rej = pc.validate(ctx, recs[:narrow], TRACE_CFG, "C09", max_reject=5)
